@@ -174,6 +174,11 @@ class ProgramModel:
         for st in node.body:
             if isinstance(st, (ast.FunctionDef, ast.AsyncFunctionDef)):
                 fi = FuncInfo(f"{qual}.{st.name}", st.name, st, u, ci)  # type: ignore[arg-type]
+                if any(ast.unparse(d).endswith((".setter", ".deleter")) for d in st.decorator_list):
+                    fi.qual += ".setter"
+                    ci.methods[st.name + ".setter"] = fi
+                    self.functions[fi.qual] = fi
+                    continue
                 ci.methods[st.name] = fi
                 self.functions[fi.qual] = fi
                 self.func_by_name.setdefault(st.name, []).append(fi)
